@@ -202,6 +202,15 @@ func (s *Sorts) CellHeap(t types.Type) HeapVar {
 }
 // ArrHeap: backing arrays are grouped by element sort; arrays of pointers and interfaces are grouped by the Go
 // element type, so that arrays owned by immutable libraries (go/ssa, go/types) have heaps of their own.
+// ArrHeapOwned: the backing arrays of slices held in fields of objects owned by go/ssa, go/types, ... (b.Succs,
+// fn.Blocks, phi.Edges): never written by code under contract (A-imm), so this heap has one version only. Which heap a
+// slice access uses is decided by where the slice expression comes from (a field of such an object), in code and in
+// contracts alike.
+func (s *Sorts) ArrHeapOwned(elem types.Type) HeapVar {
+	h := s.ArrHeap(elem)
+	return HeapVar{"AI." + strings.TrimPrefix(h.Name, "A."), h.Sort}
+}
+
 func (s *Sorts) ArrHeap(elem types.Type) HeapVar {
 	n := s.SortOf(elem)
 	name := "A." + sortID(n)
